@@ -117,7 +117,7 @@ PROPS["C08"] = dict(streams=["C08"], kernel_cases=100, timeout=600, rule=JSON_RU
     trusted_base=JSON_TB, assumptions=[], partial=[])
 PROPS["C17"] = dict(streams=["C17", "C17p"], kernel_cases=150, timeout=600,
     rule="random object trees built through NewPoint/NewPointZ/NewSimplePoint/NewRect/NewLineString/NewPolygon (incl. nil)/NewCircle/NewMulti*/NewGeometryCollection/NewFeatureCollection/NewFeature with finite grid values, NaN and +-Inf ordinates, 0-5 positions per series, and member strings (JSON objects with nested values rendered with random whitespace, the empty object with inner whitespace, non-object and invalid texts); per object: JSON()==String()==MarshalJSON()==AppendJSON(nil); AppendJSON onto a prefix with six spare capacities leaves the prefix untouched and appends exactly those bytes; the bytes are one valid JSON object for two independent tokenizers, with the kind's GeoJSON type name and coordinate nesting depth, no bare NaN/Inf; bytes compared with the Coq model of the writers; plus the grammar/mutant document stream of C06 for objects built through Parse (output valid JSON, spellings agree, AppendJSON appends). non-trivial: all; distinct = distinct case lines",
-    trusted_base=JSON_TB, assumptions=["negative zero is not generated (the grid has no -0; strconv prints it as -0)", "member texts containing a top-level \"feature\" key (sjson.Delete path) are not generated"], partial=["that Parse / the constructors only build objects meeting the theorem's well-formedness hypotheses is exercised, not proved"])
+    trusted_base=JSON_TB, assumptions=["negative zero is not generated (the grid has no -0; strconv prints it as -0)", "member texts containing a top-level \"feature\" key (sjson.Delete path) are not generated"], partial=["that the constructors (with arbitrary member strings) only build objects meeting the theorem's well-formedness hypotheses is exercised, not proved (for Parse it is proved: ParsedForm.v, ParsedLex.v)"])
 
 GEO_TB = ["Coq 8.16.1 kernel; the stdlib real-number axioms (ClassicalDedekindReals.sig_forall_dec, sig_not_dec, FunctionalExtensionality.functional_extensionality_dep, Classical_Prop.classic) as Print Assumptions reports them",
           "Interval 4.x tactic (coq-interval, uses primitive integers / BigZ; kernel-checked enclosures) for the per-input tie",
